@@ -288,6 +288,41 @@ fn placeholder_cases() -> &'static Vec<Case> {
     })
 }
 
+/// eval_decimal min / max / odd median over every ordered tuple (3 and 5 arguments) of values whose magnitudes and
+/// scales are far apart (28 fractional digits next to 11-digit and 29-digit integers): the result is one of the
+/// arguments, whatever the order they are written in (keys that overflow when brought to a common scale)
+fn dec_mixed_cases() -> &'static Vec<Case> {
+    static CELL: std::sync::OnceLock<Vec<Case>> = std::sync::OnceLock::new();
+    CELL.get_or_init(|| {
+        let vals = ["0.3333333333333333333333333333", "30000000000", "20000000000", "3.1415926535897932384626433833", "79228162514264337593543950335", "(-30000000000)", "0.0000000000000000000000000001", "123456789012345678", "(-20000000000.5)", "5"];
+        let mut out = Vec::new();
+        let n = vals.len();
+        for f in ["min", "max", "med", "median"] {
+            for a in 0..n {
+                for b in 0..n {
+                    for c in 0..n {
+                        let mut k = Case::new(Ev::Dec, format!("{}({},{},{})", f, vals[a], vals[b], vals[c]), Val::D(dec("0")));
+                        k.aux = vec![f.to_string(), format!("{} {} {}", a, b, c), "dec-mixed".into()];
+                        out.push(k);
+                    }
+                }
+            }
+            // five arguments: thinned
+            for a in 0..n {
+                for b in 0..n {
+                    for c in (0..n).step_by(3) {
+                        let (d, e) = ((a + 3) % n, (b + 5) % n);
+                        let mut k = Case::new(Ev::Dec, format!("{}({},{},{},{},{})", f, vals[a], vals[b], vals[c], vals[d], vals[e]), Val::D(dec("0")));
+                        k.aux = vec![f.to_string(), format!("{} {} {} {} {}", a, b, c, d, e), "dec-mixed".into()];
+                        out.push(k);
+                    }
+                }
+            }
+        }
+        out
+    })
+}
+
 fn tuple_space(n: u64, maxlen: u32) -> u64 {
     (1..=maxlen).map(|l| n.pow(l)).sum()
 }
@@ -332,6 +367,7 @@ impl Prop for C11Prop {
             Sub { name: "large", kind: SubKind::Enum { count: large_cases().len() as u64 } },
             Sub { name: "long-lists", kind: SubKind::Random { cases: tier.pick(60_000, 3_000_000), len: 300 } },
             Sub { name: "placeholder", kind: SubKind::Enum { count: placeholder_cases().len() as u64 } },
+            Sub { name: "dec-mixed", kind: SubKind::Enum { count: dec_mixed_cases().len() as u64 } },
             Sub { name: "nested", kind: SubKind::Random { cases: tier.pick(150_000, 5_000_000), len: 80 } },
         ]
     }
@@ -341,6 +377,9 @@ impl Prop for C11Prop {
         }
         if sub == "placeholder" {
             return placeholder_cases().get(idx as usize).cloned();
+        }
+        if sub == "dec-mixed" {
+            return dec_mixed_cases().get(idx as usize).cloned();
         }
         if sub == "failing" {
             // (ev, func, length 1..=5, failing position) and empty lists
@@ -518,6 +557,32 @@ impl Prop for C11Prop {
                     return Err(Failure::new(format!("{}/aggregate-of-placeholder/{}", ev.name(), canon), format!("{} (the placeholder itself)", case.ph.show()), o.show()));
                 }
                 sc.class(&format!("{}:{} of the placeholder", ev.name(), canon));
+                sc.nontrivial(case.hash(), || sample(case, &o.show()));
+                return Ok(());
+            }
+            Some("dec-mixed") => {
+                let vals = ["0.3333333333333333333333333333", "30000000000", "20000000000", "3.1415926535897932384626433833", "79228162514264337593543950335", "-30000000000", "0.0000000000000000000000000001", "123456789012345678", "-20000000000.5", "5"];
+                let idxs: Vec<usize> = case.aux[1].split_whitespace().filter_map(|t| t.parse().ok()).collect();
+                let mut ds: Vec<rust_decimal::Decimal> = idxs.iter().map(|i| dec(vals[*i])).collect();
+                // the reference order: rust_decimal's Ord on values that were parsed, not computed (cross-checked below with f64)
+                ds.sort();
+                for w in ds.windows(2) {
+                    use rust_decimal::prelude::ToPrimitive;
+                    if w[0].to_f64().unwrap_or(0.0) > w[1].to_f64().unwrap_or(0.0) {
+                        sc.exclude("reference order disagrees with its f64 image");
+                        return Ok(());
+                    }
+                }
+                let want = match canon {
+                    "min" => ds[0],
+                    "max" => ds[ds.len() - 1],
+                    _ => ds[ds.len() / 2],
+                };
+                let ok = matches!(&o, Outcome::Ok(Val::D(g)) if *g == want);
+                if !ok {
+                    return Err(Failure::new(format!("decimal/aggregate-mixed-scale/{}", canon), format!("{} (one of the arguments)", want), o.show()));
+                }
+                sc.class(&format!("decimal:{} over mixed scales", canon));
                 sc.nontrivial(case.hash(), || sample(case, &o.show()));
                 return Ok(());
             }
